@@ -83,10 +83,20 @@ type Race struct {
 	Threads string
 }
 
+// funcOf strips the line number of a site "file.go:123@Func" so that keys survive unrelated edits.
+func funcOf(site string) string {
+	for i := 0; i < len(site); i++ {
+		if site[i] == '@' {
+			return site[i+1:]
+		}
+	}
+	return site
+}
+
 func (r Race) Key() string {
-	a, b := r.First, r.Second
+	a, b := funcOf(r.First), funcOf(r.Second)
 	aw, bw := r.FirstW, r.SecondW
-	if b < a {
+	if b+rw(bw) < a+rw(aw) {
 		a, b = b, a
 		aw, bw = bw, aw
 	}
